@@ -257,6 +257,7 @@ func driveAuth(t *testing.T, in, out string, seed int64) {
 	for bi, b := range behaviours {
 		a := newAuthWorld()
 		c := a.C
+		RoundTripAtEnd("auth", bi, map[string]*Chain{"host": c})
 		emit := func(line M) {
 			line["st"] = a.project()
 			line["dg"] = c.Digest("evm", "xibc", "aggregate")
